@@ -4,6 +4,7 @@ import N2V.Model.Depfile
 import N2V.Model.Render
 import N2V.Model.Proto
 import N2V.Monitors
+import N2V.Model.Db
 open N2V
 
 def showRes (r : Res Bytes) : String :=
@@ -93,6 +94,133 @@ def handleSched (case impl : List String) : String :=
     | _ => "bad-impl"
   | _ => "bad-case"
 
+namespace DbDrv
+open Proto
+
+structure G where
+  names : Array Bytes
+  builds : List (List Nat)
+
+def gD : P G := do
+  kw "names"; let ns ← counted bytes
+  kw "builds"; let bs ← counted (counted nat)
+  pure ⟨ns.toArray, bs⟩
+
+structure Wr where
+  build : Nat
+  hash : Nat
+  deps : List Nat
+
+def wrD : P Wr := do
+  let b ← nat; let h ← nat; let ds ← counted nat
+  pure ⟨b, h, ds⟩
+
+def G.name (g : G) (i : Nat) : Bytes := g.names.getD i []
+def G.outs (g : G) (b : Nat) : List Bytes := (g.builds.getD b []).map g.name
+def G.producer (g : G) (n : Bytes) : Option Nat :=
+  (List.range g.builds.length).find? (fun b => (g.outs b).contains n)
+
+/-- Apply a sequence of `write_build` calls; returns the records and the final id table. -/
+def applyWrites (g : G) : List Bytes → List Wr → List Db.Rec × List Bytes
+  | known, [] => ([], known)
+  | known, w :: ws =>
+    let (rs, k) := Db.writeBuild known (g.outs w.build) (w.deps.map g.name) w.hash
+    let (rs', k') := applyWrites g k ws
+    (rs ++ rs', k')
+
+def showLoaded (g : G) (st : Db.LoadState) : String :=
+  s!"L {g.builds.length}" ++ String.join ((List.range g.builds.length).map (fun b =>
+    match Db.latest st b with
+    | some l => s!" {l.hash} {l.deps.length}" ++ String.join (l.deps.map (fun d => " " ++ hexOfBytes d))
+    | none => " - 0"))
+
+/-- The records that lie wholly within the first `k` bytes of a complete log. -/
+def survivors : List Db.Rec → Nat → Nat → List Db.Rec
+  | [], _, _ => []
+  | r :: rs, pos, k =>
+    let e := pos + (Db.encode r).length
+    if e ≤ k then r :: survivors rs e k else []
+
+end DbDrv
+
+def handleDbw (case : List String) : String :=
+  match ((do let g ← DbDrv.gD; Proto.kw "writes"; let ws ← Proto.counted DbDrv.wrD; pure (g, ws)).run case) with
+  | some ((g, ws), []) =>
+    let (rs, _) := DbDrv.applyWrites g [] ws
+    "ok " ++ hexOfBytes (Db.encodeLog rs)
+  | _ => "bad-case"
+
+def handleDbr (case impl : List String) : String :=
+  let p := (do
+    let full ← Proto.bytes; let k ← Proto.nat
+    let g ← DbDrv.gD; Proto.kw "writes"; let ws ← Proto.counted DbDrv.wrD
+    pure (full, k, g, ws)).run case
+  match p with
+  | some ((full, k, g, ws), []) =>
+    let bs := full.take k
+    let run (recs : List Db.Rec) (validLen : Nat) (base : Bytes) : String × List Db.Rec × Bytes :=
+      match Db.loadAll g.producer ⟨[], []⟩ recs with
+      | .ok st =>
+        let (newRecs, _) := DbDrv.applyWrites g st.names ws
+        let fin := base ++ newRecs.flatMap Db.encode
+        ("ok " ++ DbDrv.showLoaded g st ++ s!" {validLen} " ++ hexOfBytes fin, recs ++ newRecs, fin)
+      | .panic m => ("panic " ++ hexOfBytes (bytesOfString m), [], [])
+      | _ => ("bad", [], [])
+    let (line, _, _) := match Db.parse bs with
+      | .ok recs validLen => run recs validLen (bs.take validLen)
+      | .empty => run [] 8 Db.signature
+      | .badSignature => ("err " ++ hexOfBytes (bytesOfString "load .n2_db: invalid db signature"), [], [])
+      | .badVersion _ => ("err version", [], [])
+    -- specification path: the records of the COMPLETE log that fit in the first k bytes
+    let spec : Option (String × List Db.Rec) := match Db.parse full with
+      | .ok recsFull _ =>
+        let sv := if k < 8 then [] else DbDrv.survivors recsFull 8 k
+        match Db.loadAll g.producer ⟨[], []⟩ sv with
+        | .ok st =>
+          let (newRecs, _) := DbDrv.applyWrites g st.names ws
+          some (DbDrv.showLoaded g st, sv ++ newRecs)
+        | _ => none
+      | _ => none
+    let mon := match impl, spec with
+      | "ok" :: rest, some (specLoaded, specRecs) =>
+        let implLoaded := " ".intercalate (rest.take (rest.length - 2))
+        let finOk := match rest.getLast? with
+          | some h => match bytesOfHex h with
+            | some fb => decide (Db.parse fb = .ok specRecs fb.length)
+            | none => false
+          | none => false
+        -- C08: whatever the implementation attached to a step must come from a surviving record
+        -- ALL of whose outputs that step produces now
+        let svLoaded : List Db.Loaded := match Db.parse full with
+          | .ok recsFull _ =>
+            let sv := if k < 8 then [] else DbDrv.survivors recsFull 8 k
+            (sv.foldl (fun (acc : List Bytes × List Db.Loaded) r => match r with
+              | .path n => (acc.1 ++ [n], acc.2)
+              | .build outs deps hash =>
+                match Db.namesOf acc.1 outs, Db.namesOf acc.1 deps with
+                | .ok os, .ok ds => (acc.1, acc.2 ++ [⟨os, ds, hash⟩])
+                | _, _ => acc) ([], [])).2
+          | _ => []
+        let implBuilds : Option (List (Option Nat × List Bytes)) := (do
+          Proto.kw "L"
+          let bs ← Proto.counted (do
+            let h ← Proto.optNat
+            let ds ← Proto.counted Proto.bytes
+            pure (h, ds))
+          pure bs).run rest |>.map (fun (r : List (Option Nat × List Bytes) × List String) => r.1)
+        let attributionOk := match implBuilds with
+          | some bs => (List.range bs.length).all (fun b =>
+              match bs.getD b (none, []) with
+              | (none, ds) => ds.isEmpty
+              | (some h, ds) => svLoaded.any (fun l => l.hash == h && l.deps == ds && !l.outs.isEmpty
+                                  && l.outs.all (fun o => g.producer o == some b)))
+          | none => false
+        [("startsNormally", true), ("survivorsExact", implLoaded == specLoaded), ("laterLoadable", finOk),
+         ("attributionOk", attributionOk)]
+      | _, _ => [("startsNormally", false)]
+    line ++ mons mon
+  | _ => "bad-case"
+
 /-- `case` tokens and the implementation's observed tokens -> model line ++ monitor verdicts. -/
 def handle (case impl : List String) : String :=
   match case with
@@ -163,6 +291,8 @@ def handle (case impl : List String) : String :=
       "ok " ++ hexOfBytes (Render.progressBar ⟨w, r, q, ru, d, f⟩ n) ++ mons mon
     | _ => "bad-case"
   | "sched" :: rest => handleSched rest impl
+  | "dbw" :: rest => handleDbw rest
+  | "dbr" :: rest => handleDbr rest impl
   | _ => "bad-op"
 
 partial def loop (h : IO.FS.Stream) (out : IO.FS.Stream) : IO Unit := do
